@@ -5,8 +5,12 @@ as the breaking-change auditor (C18) looks at. Core Lean only (linked into the d
 Correspondence with the Go AST (`parser.Frugal`):
 * `Ty`: a `parser.Type{Name, KeyType, ValueType}`. `base n` iff `Name` is one of the eight base
   type names, `list`/`set`/`map` iff `Name` is that container keyword, `named n` otherwise
-  (struct, union, exception, enum or typedef reference). This is how the real parser's value is
-  converted by the harness; a `Ty` outside the image (`named "i32"`) denotes no parser output.
+  (struct, union, exception, enum or typedef reference of the same file); a name with an include
+  prefix `inc.n` (`Type.IncludeName`/`ParamName`: split at the first `.`) is `qual inc n`. This
+  is how the real parser's value is converted by the harness; a `Ty` outside the image
+  (`named "i32"`, `named "a.b"`) denotes no parser output.
+* `Prog.includes`: `Frugal.ParsedIncludes` as far as the auditor can reach into it: the typedefs
+  of each directly included file (and the names it declares, for `WF`).
 * `Field.mod`: `parser.FieldModifier` (no keyword = `dflt`; the parser forces `optional` on
   union fields and on `throws` fields). `Field.dflt`: a canonical token of the default value
   (`none` = no default; tokens are equal iff the parsed values are `reflect.DeepEqual`).
@@ -22,6 +26,7 @@ abbrev Name := String
 inductive Ty where
   | base (n : Name)
   | named (n : Name)
+  | qual (inc n : Name)    -- `inc.n`: a type of the included file `inc`
   | list (e : Ty)
   | set (e : Ty)
   | map (k v : Ty)
@@ -106,6 +111,13 @@ structure Const where
   value : String           -- canonical token of the value
   deriving DecidableEq, Repr, Inhabited
 
+/-- A directly included file, as far as type resolution of the including file reaches into it. -/
+structure IncFile where
+  name : Name              -- include name (file base name)
+  typedefs : List Typedef
+  decls : List Name := []  -- names of its structs, unions, exceptions, enums
+  deriving DecidableEq, Repr, Inhabited
+
 structure Prog where
   typedefs : List Typedef := []
   enums : List Enum := []
@@ -114,6 +126,7 @@ structure Prog where
   scopes : List Scope := []
   namespaces : List Namespace := []
   consts : List Const := []
+  includes : List IncFile := []
   deriving DecidableEq, Repr, Inhabited
 
 def baseTypeNames : List Name := ["bool", "byte", "i16", "i32", "i64", "double", "string", "binary"]
@@ -139,6 +152,7 @@ def dedupLast [DecidableEq κ] (key : α → κ) : List α → List α
 def Ty.size : Ty → Nat
   | .base _ => 1
   | .named _ => 1
+  | .qual _ _ => 1
   | .list e => e.size + 1
   | .set e => e.size + 1
   | .map k v => k.size + v.size + 1
@@ -147,6 +161,7 @@ def Ty.size : Ty → Nat
 def Ty.refs : Ty → List Name
   | .base _ => []
   | .named n => [n]
+  | .qual _ _ => []
   | .list e => e.refs
   | .set e => e.refs
   | .map k v => k.refs ++ v.refs
@@ -155,6 +170,7 @@ def Ty.refs : Ty → List Name
 def Ty.wellNamed : Ty → Bool
   | .base n => baseTypeNames.contains n
   | .named n => !reservedTypeNames.contains n
+  | .qual _ n => !reservedTypeNames.contains n
   | .list e => e.wellNamed
   | .set e => e.wellNamed
   | .map k v => k.wellNamed && v.wellNamed
@@ -163,19 +179,89 @@ def Ty.wellNamed : Ty → Bool
 def lookupTd (tds : List Typedef) (n : Name) : Option Ty :=
   (findLast? (fun td => td.name == n) tds).map (·.ty)
 
-/-- The type with every typedef expanded, at every depth. `none`: out of fuel (only
-possible when the fuel is too small for the nesting, e.g. on cyclic typedefs). -/
-def resolve? (tds : List Typedef) : Nat → Ty → Option Ty
+/-- What type resolution of a file sees: its own typedefs and its directly included files. -/
+structure TEnv where
+  tds : List Typedef
+  incs : List IncFile
+
+/-- `typedefIndex[n]` of the file itself. -/
+def TEnv.loc (e : TEnv) (n : Name) : Option Ty := lookupTd e.tds n
+
+/-- `ParsedIncludes[inc].typedefIndex[n]`: a qualified name is looked up ONLY in that include. -/
+def TEnv.inInc (e : TEnv) (inc n : Name) : Option Ty :=
+  (findLast? (fun f => f.name == inc) e.incs).bind fun f => lookupTd f.typedefs n
+
+/-- No named or qualified reference anywhere in the type (base types and containers of them). -/
+def Ty.nameFree : Ty → Bool
+  | .base _ => true
+  | .named _ => false
+  | .qual _ _ => false
+  | .list e => e.nameFree
+  | .set e => e.nameFree
+  | .map k v => k.nameFree && v.nameFree
+
+/-- Include-qualified references of the type. -/
+def Ty.qrefs : Ty → List (Name × Name)
+  | .base _ => []
+  | .named _ => []
+  | .qual i n => [(i, n)]
+  | .list e => e.qrefs
+  | .set e => e.qrefs
+  | .map k v => k.qrefs ++ v.qrefs
+
+/-- The type with every typedef expanded, at every depth: a plain name through the file's own
+typedefs, `inc.n` ONLY through the typedefs of the included file `inc`. `none`: out of fuel
+(only possible when the fuel is too small for the nesting, e.g. on cyclic typedefs).
+The body of an included typedef is continued as written; it is only meaningful when that body
+mentions no names (`WF` demands this of every included typedef the file refers to — a body with
+names would have to be re-qualified, see `resolveAcross?` and the known finding in `Props/C18`). -/
+def resolve? (e : TEnv) : Nat → Ty → Option Ty
   | 0, _ => none
   | _ + 1, .base n => some (.base n)
   | f + 1, .named n =>
-    match lookupTd tds n with
-    | some body => resolve? tds f body
+    match e.loc n with
+    | some body => resolve? e f body
     | none => some (.named n)
-  | f + 1, .list e => (resolve? tds f e).map .list
-  | f + 1, .set e => (resolve? tds f e).map .set
+  | f + 1, .qual i n =>
+    match e.inInc i n with
+    | some body => resolve? e f body
+    | none => some (.qual i n)
+  | f + 1, .list t => (resolve? e f t).map .list
+  | f + 1, .set t => (resolve? e f t).map .set
   | f + 1, .map k v =>
-    match resolve? tds f k, resolve? tds f v with
+    match resolve? e f k, resolve? e f v with
+    | some k', some v' => some (.map k' v')
+    | _, _ => none
+
+/-- A type written inside the included file `inc`, seen from the including file: its plain
+names are names of `inc`. (Qualified names inside `inc` refer to `inc`'s own includes, which
+are not part of this model; they are left as they are.) -/
+def Ty.requal (inc : Name) : Ty → Ty
+  | .base n => .base n
+  | .named n => .qual inc n
+  | .qual i n => .qual i n
+  | .list t => .list (t.requal inc)
+  | .set t => .set (t.requal inc)
+  | .map k v => .map (k.requal inc) (v.requal inc)
+
+/-- Expansion with the body of an included typedef read in ITS file (what the IDL means,
+for any body). Coincides with `resolve?` on the well-formed fragment; used to state the
+known finding about typedef chains inside an include. -/
+def resolveAcross? (e : TEnv) : Nat → Ty → Option Ty
+  | 0, _ => none
+  | _ + 1, .base n => some (.base n)
+  | f + 1, .named n =>
+    match e.loc n with
+    | some body => resolveAcross? e f body
+    | none => some (.named n)
+  | f + 1, .qual i n =>
+    match e.inInc i n with
+    | some body => resolveAcross? e f (body.requal i)
+    | none => some (.qual i n)
+  | f + 1, .list t => (resolveAcross? e f t).map .list
+  | f + 1, .set t => (resolveAcross? e f t).map .set
+  | f + 1, .map k v =>
+    match resolveAcross? e f k, resolveAcross? e f v with
     | some k', some v' => some (.map k' v')
     | _, _ => none
 
@@ -195,7 +281,10 @@ def Prog.allTys (p : Prog) : List Ty :=
 in an expanded type descends through the written type and through each typedef body at most
 once. Well-formedness (`WF.resolves`) *checks* that it suffices. -/
 def Prog.fuel (p : Prog) : Nat :=
-  (p.allTys.map (fun t => t.size + 1)).sum + 1
+  (p.allTys.map (fun t => t.size + 1)).sum
+    + (p.includes.flatMap fun f => f.typedefs.map fun td => td.ty.size + 1).sum + 1
+
+def Prog.env (p : Prog) : TEnv := ⟨p.typedefs, p.includes⟩
 
 /-- Names a `named` type may refer to. -/
 def Prog.typeNames (p : Prog) : List Name :=
@@ -220,8 +309,14 @@ def WF (p : Prog) : Prop :=
   (p.namespaces.map (·.scope)).Nodup ∧
   (p.consts.map (·.name)).Nodup ∧
   -- typedefs acyclic / types resolve
-  (∀ t ∈ p.allTys, (resolve? p.typedefs p.fuel t).isSome) ∧
-  (∀ t ∈ p.allTys, t.wellNamed = true ∧ ∀ n ∈ t.refs, n ∈ p.typeNames)
+  (∀ t ∈ p.allTys, (resolve? p.env p.fuel t).isSome) ∧
+  (∀ t ∈ p.allTys, t.wellNamed = true ∧ (∀ n ∈ t.refs, n ∈ p.typeNames) ∧
+      ∀ q ∈ t.qrefs, ∃ f ∈ p.includes, f.name = q.1 ∧ q.2 ∈ f.typedefs.map (·.name) ++ f.decls) ∧
+  -- includes: unique names; an included typedef the file refers to has a body without names
+  -- (exact shape of the recorded finding: a second typedef hop, or any name, inside an include)
+  (p.includes.map (·.name)).Nodup ∧
+  (∀ f ∈ p.includes, (f.typedefs.map (·.name)).Nodup) ∧
+  (∀ t ∈ p.allTys, ∀ q ∈ t.qrefs, ∀ b, p.env.inInc q.1 q.2 = some b → b.nameFree = true)
 
 instance (p : Prog) : Decidable (WF p) := by
   unfold WF fieldsWF; exact inferInstance
